@@ -81,6 +81,11 @@ class StmtMixin:
 
     # ----------------------------------------------------------- assignment
     def ex_Assign(self, s):
+        if len(s.targets) == 1 and isinstance(s.targets[0], ast.Attribute) and \
+                s.targets[0].attr in ('_logger', '__logger', 'logger') and isinstance(s.value, ast.Call) and \
+                ast.unparse(s.value.func).endswith('getLogger'):
+            # self._logger = logging.getLogger(...): logging has no effect in the model
+            return
         val = self.ev_hinted(s.value, self.list_hint(s.targets[0]) if len(s.targets) == 1 else None)
         for tgt in s.targets:
             self.assign(tgt, val)
@@ -160,6 +165,9 @@ class StmtMixin:
             self.py_raise('AttributeError')
         if is_py(base, 'exc'):
             base.py[1].attrs[attr] = val
+            return
+        if attr in ('_logger', '__logger', 'logger') and isinstance(t, (TRef, TPkt)):
+            # the logger attribute of an object: logging has no effect in the model
             return
         if is_py(base, 'ghost'):
             if not self.ghost_ok:
